@@ -17,7 +17,7 @@ for d in sorted(glob.glob('/verif/seeded/*/')):
     props = claimed if allprops else [prop]
     r = sh('git -C /repo apply %spatch.diff' % d)
     if r.returncode != 0:
-        rows.append((name, prop, 'PATCH-DOES-NOT-APPLY', '')); continue
+        rows.append((name, prop, 'PATCH-DOES-NOT-APPLY', '')); print(name, prop, 'PATCH-DOES-NOT-APPLY', flush=True); continue
     caught = {}
     try:
         for p in props:
